@@ -95,9 +95,11 @@ L0 == [op |-> [name |-> "none"], out |-> "ok", own |-> <<>>, found |-> 0, script
        ex |-> <<>>, idx |-> 0,
        i |-> 1, j |-> 1, n0 |-> 0, lo |-> 1, hi |-> 0, left |-> 0,
        dp |-> [cbs |-> <<>>, ret |-> "idle", then |-> "none"],
-       stack |-> <<>>, refs |-> <<>>, src |-> <<>>, phase |-> "", pre |-> <<>>, soft |-> ""]
+       stack |-> <<>>, refs |-> <<>>, src |-> <<>>, phase |-> "", pre |-> <<>>, soft |-> "",
+       b |-> [len |-> 0, s |-> <<>>],          \* the second operand of a binary operation (read-only)
+       fa |-> [x |-> "A", y |-> "B", stopHit |-> FALSE, i |-> 1, exit |-> "b_done"], seg |-> 1]
 
-On(name) == IF name = "A" THEN A ELSE T
+On(name) == IF name = "A" THEN A ELSE IF name = "B" THEN L.b ELSE T
 \* (updates of the container a phase works on are written out per action)
 
 Panic(l, out) == [l EXCEPT !.out = IF l.out = "ok" THEN out ELSE l.out]
@@ -151,7 +153,19 @@ BulkOps ==
                                 \cup {[name |-> "s_from_array", items |-> it] : it \in {x \in ItemSeqs : Len(x) = Cap}} ELSE {})
 CloneOps == {[name |-> "clone", then |-> [name |-> "none"], on |-> "orig", survivor |-> sv] : sv \in {"orig", "copy"}}
 
-AllOps == (IF "core" \in Fams THEN CoreOps ELSE {}) \cup (IF "entry" \in Fams THEN EntryOps ELSE {})
+\* binary operations of Set (set/eq.rs, set/methods.rs, the lazy adaptors, set/sub.rs) against a second
+\* set holding the classes b (its key objects are 50 + i)
+BSeqs == {q \in UNION {[1..j -> Classes] : j \in 0..Cap} : Adv \/ NoDup(q)}
+BinaryNames == {"b_eq", "b_pred", "b_alg", "b_sub"}
+BinaryOps ==
+  IF IsMap THEN {}
+  ELSE UNION {
+    {[name |-> "b_eq", b |-> q], [name |-> "b_sub", b |-> q]}
+    \cup {[name |-> "b_pred", p |-> pp, b |-> q] : pp \in {"is_subset", "is_superset", "is_disjoint"}}
+    \cup {[name |-> "b_alg", kind |-> kd, n |-> n, b |-> q] :
+            kd \in {"union", "intersection", "difference", "symmetric_difference"}, n \in {0, 1, A.len + Len(q)}} : q \in BSeqs}
+
+AllOps == (IF "binary" \in Fams THEN BinaryOps ELSE {}) \cup (IF "core" \in Fams THEN CoreOps ELSE {}) \cup (IF "entry" \in Fams THEN EntryOps ELSE {})
           \cup (IF "unchecked" \in Fams THEN UncheckedOps ELSE {}) \cup (IF "disjoint" \in Fams THEN DisjointOps ELSE {})
           \cup (IF "cursor" \in Fams THEN CursorOps ELSE {}) \cup (IF "bulk" \in Fams THEN BulkOps ELSE {})
           \cup (IF "clone" \in Fams THEN CloneOps ELSE {})
@@ -171,7 +185,8 @@ StartII(l, on, k, vt, upd, full, ret) ==
 
 Start(op) ==
   /\ pc = "idle"
-  /\ budget' = Budget /\ hist' = <<>> /\ UNCHANGED <<A, T, viol>>
+  /\ budget' = Budget /\ hist' = <<>> /\ UNCHANGED <<A, viol>>
+  /\ T' = IF op.name = "b_sub" THEN Fresh ELSE T
   /\ LET l == [L0 EXCEPT !.op = op, !.pre = [i \in 1..A.len |-> <<A.s[i].c, 0, 0>>]] IN
      CASE op.name \in LookupNames ->
             /\ pc' = "scan"
@@ -186,6 +201,24 @@ Start(op) ==
                        !.own = <<KObj(op.k.kt)>> \o (IF op.m \in EntryTakesV THEN <<VObj(op.v.vt)>> ELSE <<>>)]
        [] op.name = "insert_unchecked" ->
             /\ pc' = "iu" /\ L' = [l EXCEPT !.own = <<VObj(op.v.vt), KObj(op.k.kt)>>]
+       [] op.name \in BinaryNames ->
+            LET bb == [len |-> Len(op.b), s |-> [i \in 1..Len(op.b) |-> LiveSlot(op.b[i], 50 + i, 0)]]
+                l2 == [l EXCEPT !.b = bb, !.soft = "b_done"] IN
+            (CASE op.name = "b_eq" ->
+                   IF A.len # bb.len THEN pc' = "b_done" /\ L' = l2
+                   ELSE pc' = "fa" /\ L' = [l2 EXCEPT !.fa = [x |-> "A", y |-> "B", stopHit |-> FALSE, i |-> 1, exit |-> "b_done"]]
+              [] op.name = "b_pred" ->
+                   (CASE op.p = "is_subset" ->
+                          IF A.len <= bb.len THEN pc' = "fa" /\ L' = [l2 EXCEPT !.fa = [x |-> "A", y |-> "B", stopHit |-> FALSE, i |-> 1, exit |-> "b_done"]]
+                          ELSE pc' = "b_done" /\ L' = l2
+                     [] op.p = "is_superset" ->
+                          IF bb.len <= A.len THEN pc' = "fa" /\ L' = [l2 EXCEPT !.fa = [x |-> "B", y |-> "A", stopHit |-> FALSE, i |-> 1, exit |-> "b_done"]]
+                          ELSE pc' = "b_done" /\ L' = l2
+                     [] op.p = "is_disjoint" ->
+                          IF A.len <= bb.len THEN pc' = "fa" /\ L' = [l2 EXCEPT !.fa = [x |-> "A", y |-> "B", stopHit |-> TRUE, i |-> 1, exit |-> "b_done"]]
+                          ELSE pc' = "fa" /\ L' = [l2 EXCEPT !.fa = [x |-> "B", y |-> "A", stopHit |-> TRUE, i |-> 1, exit |-> "b_done"]])
+              [] op.name = "b_alg" -> pc' = "ba" /\ L' = [l2 EXCEPT !.seg = 1, !.i = 1, !.left = op.n, !.phase = IF op.n = 0 THEN "fold" ELSE "next", !.soft = "ba_soft"]
+              [] op.name = "b_sub" -> pc' = "bs" /\ L' = [l2 EXCEPT !.seg = 1, !.i = 1, !.soft = ""])
        [] op.name = "disjoint" ->
             /\ L' = [l EXCEPT !.i = 1, !.j = IF op.unchecked THEN 1 ELSE 2]
             /\ pc' = IF Len(op.ks) = 0 THEN "done" ELSE IF op.unchecked THEN "dj_main" ELSE "dj_pre"
@@ -713,6 +746,88 @@ CloneDrop ==
 CloneGone ==
   /\ pc = "cl_gone" /\ pc' = "done" /\ T' = NoT /\ UNCHANGED <<A, budget, viol, hist, L>>
 
+\* ---- binary operations of Set ----------------------------------------------
+\* "for every element of x, look it up in y; stop as soon as a lookup hits (stopHit) / misses":
+\* Set::eq (eq.rs: len, then all(|k| other.get(k)...)), is_subset, is_superset, is_disjoint
+FaStep ==
+  /\ pc = "fa" /\ UNCHANGED <<A, T, budget, viol, hist>>
+  /\ LET X == On(L.fa.x) IN
+     IF L.fa.i > X.len THEN pc' = L.fa.exit /\ L' = L
+     ELSE pc' = "scan" /\ L' = StartScan(L, L.fa.y, "e", TRUE, X.s[L.fa.i].kt, X.s[L.fa.i].c, "fa_after")
+FaAfter ==
+  /\ pc = "fa_after" /\ UNCHANGED <<A, T, budget, viol, hist>>
+  /\ IF (L.found # 0) = L.fa.stopHit THEN pc' = L.fa.exit /\ L' = L
+     ELSE pc' = "fa" /\ L' = [L EXCEPT !.fa.i = @ + 1]
+BinaryDone ==        \* the second operand belongs to the caller; a temporary result is gone by now
+  /\ pc = "b_done" /\ pc' = "done" /\ T' = NoT /\ UNCHANGED <<A, budget, viol, hist, L>>
+
+\* the lazy adaptors as chains of filtered slot iterators:
+\*   difference = x.iter().filter(absent from y); intersection = filter(present in y);
+\*   union = y.iter() ++ x.difference(y); symmetric_difference = x.difference(y) ++ y.difference(x)
+Segs(kind) ==
+  CASE kind = "difference" -> <<[x |-> "A", y |-> "B", want |-> "absent"]>>
+    [] kind = "intersection" -> <<[x |-> "A", y |-> "B", want |-> "present"]>>
+    [] kind = "union" -> <<[x |-> "B", y |-> "B", want |-> "all"], [x |-> "A", y |-> "B", want |-> "absent"]>>
+    [] kind = "symmetric_difference" -> <<[x |-> "A", y |-> "B", want |-> "absent"], [x |-> "B", y |-> "A", want |-> "absent"]>>
+\* the harness takes n items with next() (each call caught on its own), then folds the rest with
+\* a closure of its own (a callback, 'g')
+Yield(l) ==          \* an item comes out of the adaptor
+  IF l.phase = "next" THEN (IF l.left <= 1 THEN [l EXCEPT !.left = 0, !.phase = "fold", !.i = @ + 1] ELSE [l EXCEPT !.left = @ - 1, !.i = @ + 1])
+  ELSE [l EXCEPT !.i = @ + 1]
+AlgStep ==
+  /\ pc = "ba" /\ UNCHANGED <<A, T, viol>>
+  /\ LET sg == Segs(L.op.kind) IN
+     IF L.seg > Len(sg) THEN pc' = "b_done" /\ L' = L /\ UNCHANGED <<budget, hist>>
+     ELSE LET g == sg[L.seg]
+              X == On(g.x) IN
+          IF L.i > X.len THEN pc' = "ba" /\ L' = [L EXCEPT !.seg = @ + 1, !.i = 1] /\ UNCHANGED <<budget, hist>>
+          ELSE IF g.want = "all" THEN
+               IF L.phase = "next" THEN pc' = "ba" /\ L' = Yield(L) /\ UNCHANGED <<budget, hist>>
+               ELSE /\ hist' = Append(hist, Cb("g", 0, 0))
+                    /\ (Inject \/ (UNCHANGED budget /\ pc' = "ba" /\ L' = Yield(L)))
+          ELSE pc' = "scan" /\ L' = StartScan(L, g.y, "e", TRUE, X.s[L.i].kt, X.s[L.i].c, "ba_after") /\ UNCHANGED <<budget, hist>>
+AlgAfter ==
+  /\ pc = "ba_after" /\ UNCHANGED <<A, T, viol>>
+  /\ LET g == Segs(L.op.kind)[L.seg]
+         pass == (g.want = "present") = (L.found # 0) IN
+     IF ~pass THEN pc' = "ba" /\ L' = [L EXCEPT !.i = @ + 1] /\ UNCHANGED <<budget, hist>>
+     ELSE IF L.phase = "next" THEN pc' = "ba" /\ L' = Yield(L) /\ UNCHANGED <<budget, hist>>
+     ELSE /\ hist' = Append(hist, Cb("g", 0, 0))
+          /\ (Inject \/ (UNCHANGED budget /\ pc' = "ba" /\ L' = Yield(L)))
+\* a panic inside one next() call ends that call only (the slice iterator has already stepped past
+\* the element it was looking at); the harness then goes on to fold.  A panic inside fold ends the episode.
+AlgSoft ==
+  /\ pc = "ba_soft" /\ UNCHANGED <<A, T, budget, viol, hist>>
+  /\ IF L.phase = "next" THEN pc' = "ba" /\ L' = [L EXCEPT !.phase = "fold", !.left = 0, !.i = @ + 1]
+     ELSE pc' = "b_done" /\ L' = L
+
+\* set/sub.rs: self.difference(rhs).cloned().collect() - a new set of the left capacity (T), filled by
+\* a loop of insert; unwinding drops it
+SubStep ==
+  /\ pc = "bs" /\ UNCHANGED <<A, T, budget, viol, hist>>
+  /\ IF L.i > A.len THEN pc' = "bs_ret" /\ L' = L
+     ELSE pc' = "scan" /\ L' = StartScan(L, "B", "e", TRUE, A.s[L.i].kt, A.s[L.i].c, "bs_after")
+SubAfter ==
+  /\ pc = "bs_after" /\ UNCHANGED <<A, T, viol>>
+  /\ IF L.found # 0 THEN pc' = "bs" /\ L' = [L EXCEPT !.i = @ + 1] /\ UNCHANGED <<budget, hist>>
+     ELSE /\ hist' = Append(hist, Cb("c", A.s[L.i].kt, 0))                       \* cloned()
+          /\ \/ Inject
+             \/ /\ UNCHANGED budget /\ pc' = "scan"
+                /\ L' = StartII(L, "T", [kt |-> 20 + A.s[L.i].kt, c |-> A.s[L.i].c], 0, FALSE, FALSE, "bs_tail")
+SubTail ==       \* Set::insert: a displaced key part (only when comparisons lie) is dropped
+  /\ pc = "bs_tail" /\ UNCHANGED <<A, T, budget, viol, hist>>
+  /\ IF L.ex = <<>> THEN pc' = "bs" /\ L' = [L EXCEPT !.i = @ + 1]
+     ELSE pc' = "dropping" /\ L' = GoDrop([L EXCEPT !.i = @ + 1], <<DropK(L.ex[1])>>, "bs")
+SubReturned ==   \* the result is handed to the caller, which looks at it and drops it (a call of its own)
+  /\ pc = "bs_ret" /\ pc' = "bs_drop" /\ L' = [L EXCEPT !.soft = "b_done", !.i = 1] /\ UNCHANGED <<A, T, budget, viol, hist>>
+SubDrop ==
+  /\ pc = "bs_drop" /\ UNCHANGED <<A, budget>>
+  /\ IF L.i > T.len THEN pc' = "b_done" /\ L' = L /\ UNCHANGED <<T, viol, hist>>
+     ELSE /\ viol' = Note(viol, T.s[L.i].st = "l", "Drop destroyed a slot that holds no live element")
+          /\ T' = [T EXCEPT !.s[L.i].st = "d"]
+          /\ pc' = "dropping" /\ L' = GoDrop([L EXCEPT !.i = @ + 1], PairDrops(T.s[L.i].kt, T.s[L.i].vt), "bs_drop")
+          /\ UNCHANGED hist
+
 \* ==================================================================== spec ==
 Init == A = Fresh /\ T = NoT /\ pc = "idle" /\ L = L0 /\ budget = 0 /\ viol = "none" /\ hist = <<>>
 
@@ -739,6 +854,7 @@ Next ==
   \/ CursorStart \/ CursorNext \/ CursorDebug \/ CursorDrop \/ CursorCount \/ CursorUnwind \/ CursorGone
   \/ BulkStart \/ BulkPull \/ BulkTail
   \/ CloneStart \/ CloneKey \/ CloneVal \/ CloneEq \/ CloneEqPanicked \/ CloneEqVal \/ CloneSwap \/ CloneDrop \/ CloneGone
+  \/ FaStep \/ FaAfter \/ BinaryDone \/ AlgStep \/ AlgAfter \/ AlgSoft \/ SubStep \/ SubAfter \/ SubTail \/ SubReturned \/ SubDrop
   \/ DrainStart \/ DrainNext \/ DrainDebug \/ DrainDrop \/ DrainCount
   \/ Done
 Spec == Init /\ [][Next]_vars
@@ -757,7 +873,7 @@ MacroPanics(r) ==
   ELSE IF L.op.name \in {"drain", "s_drain", "cursor", "s_into_iter", "clone"} THEN FALSE     \* (episode records; these never panic by themselves)
   ELSE r.ret[1] = "panic"
 MicroRefinesMacro ==
-  (pc = "done" /\ ~Adv /\ L.out \in {"ok", "panic"}) =>
+  (pc = "done" /\ ~Adv /\ L.out \in {"ok", "panic"} /\ L.op.name \notin BinaryNames) =>
      LET r == M!Apply(MacroPre, Cap, L.op)
          mine == Survivors(IF L.phase = "gone" THEN Fresh ELSE A) IN
      IF L.out = "panic" THEN MacroPanics(r) /\ (L.op.name = "s_extend" \/ mine = MacroPost(r))
